@@ -16,6 +16,11 @@ package main
 // file on disk, then `restic repair packs <P>`, `restic repair snapshots --forget`,
 // `restic check --read-data` - the real command functions, no cache.
 //
+// Two damaged packs in one run: a fixture variant with a third pack that holds a second
+// copy of one data blob (plus an unrelated blob); every pair (middle of a blob or header
+// of the first data pack) x (middle of a blob or header of the duplicate's pack), both
+// packs named in ONE `repair packs` run.
+//
 // Oracle (ground truth computed by the harness from the damaged file's bytes: a blob
 // of P is salvageable iff its range (from the pristine header) lies inside the file and
 // it decrypts, decompresses and hashes to its ID with the repository key):
@@ -92,6 +97,7 @@ type verifC34Fixture struct {
 	packs   []*verifC34Pack
 	blobs   map[restic.BlobHandle][]byte // every blob's plaintext
 	where   map[restic.BlobHandle]restic.ID
+	locs    map[restic.BlobHandle][]restic.ID // every pack that holds the blob (the dup variant stores one blob twice)
 	snaps   []*verifC34Snap
 	key     *crypto.Key
 }
@@ -132,9 +138,20 @@ func verifC34CopyDir(t testing.TB, src, dst string) {
 }
 
 func verifC34WithRepo(t testing.TB, gopts global.Options, fn func(ctx context.Context, repo *repository.Repository) error) error {
+	return verifC34WithRepoMode(t, gopts, false, fn)
+}
+
+// verifC34WithRepoMode: write=false opens without lock (restic then puts the repository in dry-run mode).
+func verifC34WithRepoMode(t testing.TB, gopts global.Options, write bool, fn func(ctx context.Context, repo *repository.Repository) error) error {
 	return withTermStatus(t, gopts, func(ctx context.Context, gopts global.Options) error {
 		printer := progress.NewTerminalPrinter(false, gopts.Verbosity, gopts.Term)
-		ctx, repo, unlock, err := openWithReadLock(ctx, gopts, true, printer)
+		open := func() (context.Context, *repository.Repository, func(), error) {
+			if write {
+				return openWithAppendLock(ctx, gopts, false, printer)
+			}
+			return openWithReadLock(ctx, gopts, true, printer)
+		}
+		ctx, repo, unlock, err := open()
 		if err != nil {
 			return err
 		}
@@ -190,12 +207,12 @@ func verifC34Walk(ctx context.Context, repo restic.BlobLoader, tree restic.ID, p
 	return ok
 }
 
-func verifC34Build(t *testing.T, version uint) *verifC34Fixture {
+func verifC34Build(t *testing.T, version uint, dup bool) *verifC34Fixture {
 	env, _ := withTestEnvironment(t) // removed with the shard scratch / by t.Cleanup below
 	t.Cleanup(func() { _ = os.RemoveAll(env.base) })
 	env.gopts.BackendTestHook = nil
 	env.gopts.NoCache = true
-	f := &verifC34Fixture{version: version, env: env, blobs: map[restic.BlobHandle][]byte{}, where: map[restic.BlobHandle]restic.ID{}}
+	f := &verifC34Fixture{version: version, env: env, blobs: map[restic.BlobHandle][]byte{}, where: map[restic.BlobHandle]restic.ID{}, locs: map[restic.BlobHandle][]restic.ID{}}
 
 	repository.TestUseLowSecurityKDFParameters(t)
 	restic.TestDisableCheckPolynomial(t)
@@ -229,6 +246,40 @@ func verifC34Build(t *testing.T, version uint) *verifC34Fixture {
 	rtest.OK(t, os.WriteFile(filepath.Join(d, "f"), verifC34Rand(4, 80), 0o644))
 	testRunBackup(t, env.testdata, []string{"d"}, BackupOptions{}, env.gopts)
 	mark("b2")
+	if dup {
+		// a third pack holding a second copy of the first chunk of d/b (as concurrent or interrupted backups
+		// leave behind) next to an unrelated blob
+		rtest.OK(t, verifC34WithRepoMode(t, env.gopts, true, func(ctx context.Context, repo *repository.Repository) error {
+			var first restic.ID
+			var trees []restic.ID
+			err := data.ForAllSnapshots(ctx, repo, repo, nil, func(id restic.ID, sn *data.Snapshot, err error) error {
+				if err == nil {
+					trees = append(trees, *sn.Tree)
+				}
+				return err
+			})
+			if err != nil {
+				return err
+			}
+			files := map[string]*verifC34File{}
+			if !verifC34Walk(ctx, repo, trees[0], "/", nil, files, nil) || files["/d/b"] == nil {
+				return fmt.Errorf("dup fixture: cannot walk the first snapshot")
+			}
+			first = files["/d/b"].blobs[0]
+			plain, err := repo.LoadBlob(ctx, restic.BlobHandle{Type: restic.DataBlob, ID: first}, nil)
+			if err != nil {
+				return err
+			}
+			return repo.WithBlobUploader(ctx, func(ctx context.Context, up restic.BlobSaverWithAsync) error {
+				if _, _, _, err := up.SaveBlob(ctx, restic.DataBlob, plain, first, true); err != nil {
+					return err
+				}
+				_, _, _, err := up.SaveBlob(ctx, restic.DataBlob, verifC34Rand(9, 500), restic.ID{}, false)
+				return err
+			})
+		}))
+		mark("dup")
+	}
 
 	rtest.OK(t, verifC34WithRepo(t, env.gopts, func(ctx context.Context, repo *repository.Repository) error {
 		f.key = repo.Key()
@@ -241,6 +292,7 @@ func verifC34Build(t *testing.T, version uint) *verifC34Fixture {
 				packs[pb.PackID()] = p
 			}
 			f.where[pb.Handle()] = pb.PackID()
+			f.locs[pb.Handle()] = append(f.locs[pb.Handle()], pb.PackID())
 		})
 		if err != nil {
 			return err
@@ -319,7 +371,10 @@ func verifC34Build(t *testing.T, version uint) *verifC34Fixture {
 			for i := range p.blobs {
 				p.blobs[i].name = names[p.blobs[i].h]
 				if p.blobs[i].name == "" {
-					return fmt.Errorf("blob %v in pack %s belongs to no snapshot", p.blobs[i].h, p.role)
+					if !dup {
+						return fmt.Errorf("blob %v in pack %s belongs to no snapshot", p.blobs[i].h, p.role)
+					}
+					p.blobs[i].name = fmt.Sprintf("extra#%d", i)
 				}
 			}
 		}
@@ -373,7 +428,17 @@ func verifC34Sites(p *verifC34Pack) []verifC34Site {
 	return sites
 }
 
+type verifC34Damage struct {
+	p    *verifC34Pack
+	site verifC34Site
+}
+
 func verifC34Case(t *testing.T, r *vh.Run, f *verifC34Fixture, p *verifC34Pack, site verifC34Site, workdir string) (fails []string, outcome string, nontrivial bool) {
+	return verifC34CaseN(t, r, f, []verifC34Damage{{p, site}}, workdir)
+}
+
+// verifC34CaseN damages one site in each of the given packs and repairs all of them in ONE `repair packs` run.
+func verifC34CaseN(t *testing.T, r *vh.Run, f *verifC34Fixture, dams []verifC34Damage, workdir string) (fails []string, outcome string, nontrivial bool) {
 	fail := func(kind, format string, a ...any) { fails = append(fails, kind+": "+fmt.Sprintf(format, a...)) }
 	repoDir := filepath.Join(workdir, "repo")
 	cwd := filepath.Join(workdir, "cwd")
@@ -383,51 +448,75 @@ func verifC34Case(t *testing.T, r *vh.Run, f *verifC34Fixture, p *verifC34Pack, 
 	gopts.Repo = repoDir
 
 	// damage
-	packPath := filepath.Join(repoDir, p.path)
-	buf, err := os.ReadFile(packPath)
-	rtest.OK(t, err)
-	switch site.op {
-	case "flip":
-		buf[site.off] ^= 0x01
-	case "trunc":
-		buf = buf[:site.off]
+	damaged := map[restic.ID]bool{}
+	var packPaths []string
+	var packIDs []string
+	bufs := map[restic.ID][]byte{}
+	for _, d := range dams {
+		packPath := filepath.Join(repoDir, d.p.path)
+		buf, err := os.ReadFile(packPath)
+		rtest.OK(t, err)
+		switch d.site.op {
+		case "flip":
+			buf[d.site.off] ^= 0x01
+		case "trunc":
+			buf = buf[:d.site.off]
+		}
+		rtest.OK(t, os.WriteFile(packPath, buf, 0o600))
+		damaged[d.p.id] = true
+		bufs[d.p.id] = buf
+		packPaths = append(packPaths, packPath)
+		packIDs = append(packIDs, d.p.id.String())
 	}
-	rtest.OK(t, os.WriteFile(packPath, buf, 0o600))
 
-	// ground truth: which blobs of P can still be decoded from the damaged bytes
+	// ground truth: a blob is available iff some copy lies in an undamaged pack or can still be decoded
+	// from the damaged bytes of a damaged pack
 	key := f.key
 	dec, _ := zstd.NewReader(nil)
 	defer dec.Close()
 	avail := map[restic.BlobHandle]bool{}
-	for h, pk := range f.where {
-		if pk != p.id {
-			avail[h] = true
+	for h, pks := range f.locs {
+		for _, pk := range pks {
+			if !damaged[pk] {
+				avail[h] = true
+			}
 		}
 	}
 	lost := 0
-	for _, b := range p.blobs {
-		ok := false
-		if int(b.offset+b.length) <= len(buf) {
-			ct := buf[b.offset : b.offset+b.length]
-			plain, err := key.Open(nil, ct[:16], ct[16:], nil)
-			if err == nil && b.ulen != 0 {
-				plain, err = dec.DecodeAll(plain, nil)
+	for _, d := range dams {
+		buf := bufs[d.p.id]
+		for _, b := range d.p.blobs {
+			ok := false
+			if int(b.offset+b.length) <= len(buf) {
+				ct := buf[b.offset : b.offset+b.length]
+				plain, err := key.Open(nil, ct[:16], ct[16:], nil)
+				if err == nil && b.ulen != 0 {
+					plain, err = dec.DecodeAll(plain, nil)
+				}
+				if err == nil && restic.ID(sha256.Sum256(plain)) == b.h.ID {
+					ok = true
+				}
 			}
-			if err == nil && restic.ID(sha256.Sum256(plain)) == b.h.ID {
-				ok = true
+			if ok {
+				avail[b.h] = true
 			}
 		}
-		if ok {
-			avail[b.h] = true
-		} else {
+	}
+	for h := range f.locs {
+		if !avail[h] {
 			lost++
 		}
 	}
-	nontrivial = lost > 0 || strings.HasPrefix(site.tag, "header")
+	nontrivial = lost > 0 || len(dams) > 1
+	for _, d := range dams {
+		if strings.HasPrefix(d.site.tag, "header") {
+			nontrivial = true
+		}
+	}
 
 	// the repairs
 	cleanupChdir := rtest.Chdir(t, cwd)
-	_, stderr, err := testRunRepairPacks(t, gopts, []string{p.id.String()})
+	_, stderr, err := testRunRepairPacks(t, gopts, packIDs)
 	cleanupChdir()
 	if err != nil {
 		fail("repair-packs-failed", "repair packs returned %v (%s)", err, strings.TrimSpace(stderr))
@@ -440,8 +529,10 @@ func verifC34Case(t *testing.T, r *vh.Run, f *verifC34Fixture, p *verifC34Pack, 
 		fail("repair-snapshots-failed", "repair snapshots --forget returned %v", err)
 		return fails, "repair-snapshots-failed", nontrivial
 	}
-	if _, err := os.Stat(packPath); err == nil {
-		fail("damaged-pack-kept", "the damaged pack file still exists after repair packs")
+	for _, packPath := range packPaths {
+		if _, err := os.Stat(packPath); err == nil {
+			fail("damaged-pack-kept", "the damaged pack file still exists after repair packs")
+		}
 	}
 	_, chkErr, err := testRunCheckOutput(t, gopts, false)
 	if err != nil {
@@ -461,14 +552,14 @@ func verifC34Case(t *testing.T, r *vh.Run, f *verifC34Fixture, p *verifC34Pack, 
 			}
 			got, err := repo.LoadBlob(ctx, h, nil)
 			if err != nil {
-				fail("salvageable-blob-lost", "blob %v (%s, still decodable from the damaged pack: %v) cannot be loaded after the repair: %v", h.ID.Str(), h.Type, f.where[h] == p.id, err)
+				fail("salvageable-blob-lost", "blob %v (%s, still decodable from the damaged pack: %v) cannot be loaded after the repair: %v", h.ID.Str(), h.Type, damaged[f.where[h]], err)
 			} else if !bytes.Equal(got, want) {
 				fail("blob-wrong-bytes", "blob %v loads with different content after the repair", h.ID.Str())
 			}
 		}
 		for h := range f.blobs {
 			for _, pb := range repo.LookupBlob(h) {
-				if pb.PackID() == p.id {
+				if damaged[pb.PackID()] {
 					fail("index-lists-removed-pack", "the index still lists blob %v in the removed pack", h.ID.Str())
 				}
 			}
@@ -563,14 +654,79 @@ func verifC34Case(t *testing.T, r *vh.Run, f *verifC34Fixture, p *verifC34Pack, 
 func TestVerif_C34(t *testing.T) {
 	r := vh.Start(t, "C34")
 	defer r.Finish()
-	r.Rule("every pack of a small real repository x {flip first/middle/last byte of every blob and of the header, header length byte; truncate at every blob boundary +-1, to 0, by 1}; each site = fresh repository copy + real repair packs + repair snapshots --forget + check --read-data + full read-back; non-trivial = a blob of the pack was lost or its header was damaged")
+	r.Rule("every pack of a small real repository x {flip first/middle/last byte of every blob and of the header, header length byte; truncate at every blob boundary +-1, to 0, by 1}; plus pairs of sites in two packs sharing a duplicated blob repaired in one run; each site = fresh repository copy + real repair packs + repair snapshots --forget + check --read-data + full read-back; non-trivial = a blob of the pack was lost or its header was damaged")
 	versions := []uint{2}
 	if r.Thorough() {
 		versions = []uint{1, 2}
 	}
 	n := 0
+	// two damaged packs that share a blob, repaired in one run: fixture with a third pack holding a second
+	// copy of one data blob; every pair (middle of a blob / header of the first data pack) x (middle of a
+	// blob of the duplicate's pack)
 	for _, version := range versions {
-		f := verifC34Build(t, version)
+		fd := verifC34Build(t, version, true)
+		var pa, pd *verifC34Pack
+		for _, p := range fd.packs {
+			switch p.role {
+			case "b1-data":
+				pa = p
+			case "dup-data":
+				pd = p
+			}
+		}
+		if pa == nil || pd == nil || len(pd.blobs) != 2 {
+			var roles []string
+			for _, p := range fd.packs {
+				roles = append(roles, fmt.Sprintf("%s(%d blobs)", p.role, len(p.blobs)))
+			}
+			t.Fatalf("dup fixture: packs %v", roles)
+		}
+		mid := func(p *verifC34Pack) (out []verifC34Site) {
+			for _, st := range verifC34Sites(p) {
+				if st.op == "flip" && (strings.HasSuffix(st.tag, ".middle") || st.tag == "header.first") {
+					out = append(out, st)
+				}
+			}
+			return out
+		}
+		for _, sa := range mid(pa) {
+			for _, sd := range mid(pd) {
+				ck := fmt.Sprintf("v%d|dup|b1-data:%s+dup-data:%s", version, sa.tag, sd.tag)
+				if !r.Case(ck) {
+					continue
+				}
+				if r.Expired() {
+					return
+				}
+				n++
+				workdir := filepath.Join(r.Scratch, fmt.Sprintf("case%d", n))
+				var fails []string
+				var outcome string
+				var nt bool
+				panicked, msg := vh.NoPanic(func() {
+					fails, outcome, nt = verifC34CaseN(t, r, fd, []verifC34Damage{{pa, sa}, {pd, sd}}, workdir)
+				})
+				_ = os.RemoveAll(workdir)
+				r.Eval(1)
+				r.Trace(1)
+				r.Transition(3)
+				if panicked {
+					r.Violationf(ck, "C34|"+ck+"|panic", ck, "panic: %s", msg)
+					continue
+				}
+				r.Outcome("two-packs|" + outcome)
+				if nt {
+					r.NontrivialByConstruction(1)
+				}
+				for _, fl := range fails {
+					kind := fl[:strings.Index(fl, ":")]
+					r.Violationf(ck, "C34|"+ck+"|"+kind, map[string]any{"version": version, "packs": "b1-data + dup-data", "sites": sa.tag + " + " + sd.tag}, "%s [%s]", fl, ck)
+				}
+			}
+		}
+	}
+	for _, version := range versions {
+		f := verifC34Build(t, version, false)
 		for _, p := range f.packs {
 			if !r.Thorough() && !strings.HasPrefix(p.role, "b1-") {
 				continue
